@@ -750,6 +750,37 @@ fn for_each_job(tier: Tier, seed: u64, f: &mut dyn FnMut(usize, Job) -> bool) {
             emit!(Job { input: text.clone().into_bytes(), entry, opts: [0u8, 6, 8, 0, 7, 4, 3][k], ty, fam: "wide", heavy: true });
         }
     }
+    // D: an alias to an anchor that is still open, below k nested anchored containers (flow and block)
+    for k in [1usize, 2, 3, 7, 8, 9, 16, 40, 100] {
+        for target in [1usize, k] {
+            let mut t = String::new();
+            for i in 1..=k {
+                t.push_str(&format!("&a{i} ["));
+            }
+            t.push_str(&format!("*a{target}"));
+            t.push_str(&"]".repeat(k));
+            let mut b = String::from("r:\n");
+            for i in 1..=k {
+                b.push_str(&format!("{}- &b{i}\n", " ".repeat(i)));
+            }
+            b.push_str(&format!("{}- *b{target}\n", " ".repeat(k + 1)));
+            for text in [t, b] {
+                for (j, &ty) in [0u8, 29, 23, 31, 3].iter().enumerate() {
+                    let entry = [0u8, 3, 7, 2, 5][j];
+                    emit!(Job { input: text.clone().into_bytes(), entry, opts: [0u8, 1, 9, 10, 0][j], ty, fam: "recursive-alias-under-anchors", heavy: false });
+                }
+            }
+        }
+    }
+    // E: long runs of one operator / sign / parenthesis for the expression evaluator (angle_conversions) and the number parsers
+    for n in [1_000usize, 100_000, 1_000_000] {
+        for text in [format!("x: {}1", "-".repeat(n)), format!("{}1", "+".repeat(n)), format!("1{}", "+1".repeat(n / 2)), format!("{}1", "- ".repeat(n.min(1000))), format!("{}1{}", "(".repeat(n.min(100_000)), ")".repeat(n.min(100_000))), format!("1{}", "_".repeat(n)), format!("0x{}", "f".repeat(n))] {
+            for &ty in &[18u8, 17, 0, 32, 16] {
+                emit!(Job { input: text.clone().into_bytes(), entry: 0, opts: 4, ty, fam: "long-operator-run", heavy: true });
+                emit!(Job { input: text.clone().into_bytes(), entry: 3, opts: 0, ty, fam: "long-operator-run", heavy: true });
+            }
+        }
+    }
     // A0: every token string of length <= 1 x every type x every entry x every option vector
     let mut short: Vec<String> = vec![String::new()];
     short.extend(TOKENS.iter().map(|t| t.to_string()));
